@@ -451,6 +451,122 @@ def bounded_dynamic(run):
                        evaluations=evaluations, distinct=len(distinct), failures=failures)
 
 
+# ------------------------------------------------------------------------------------------ copies are deep
+# ints / the stateless connector service / the random stream (Config.copy documents that the generator is shared on purpose)
+SHARED_BY_DESIGN = {"self.d", "self._d", "self._connector", "self.connector", "self.rng"}
+
+
+def _fresh_expr(e):
+    """is this expression a new object sharing no mutable state with `self`? (syntactic, sound for the listed forms)"""
+    from vf.frames import ALIASING_NP, FRESH_FUNCS, FRESH_METHODS
+
+    if isinstance(e, (ast.Constant, ast.BinOp, ast.UnaryOp, ast.Compare)):
+        return True
+    if ast.unparse(e) in SHARED_BY_DESIGN:
+        return True
+    if isinstance(e, ast.Call):
+        name = ast.unparse(e.func)
+        base = name.replace("self._connector.np.", "np.").replace("self._connector.fallback_np.", "np.").replace("self._np.", "np.")
+        if base.split(".")[-1] in ALIASING_NP:
+            return False
+        if base in FRESH_FUNCS and base not in ("len",):
+            # np.array(x, copy=False) may alias
+            return not any(k.arg == "copy" and isinstance(k.value, ast.Constant) and k.value.value is False for k in e.keywords)
+        if isinstance(e.func, ast.Attribute) and e.func.attr in ("copy", "deepcopy") and not e.args:
+            return True
+        if name in ("copy.deepcopy", "deepcopy") and len(e.args) == 1:
+            return True
+    return False
+
+
+def copy_obligations(run):
+    """every `copy` method of the package returns an object sharing no mutable state with `self`: either it is
+    `copy.deepcopy(self)`, or it builds a new object whose constructor arguments and attribute stores are fresh"""
+    import glob
+
+    for path in sorted(glob.glob(os.path.join(REPO, "piquasso", "**", "*.py"), recursive=True)):
+        rel = os.path.relpath(path, REPO)
+        tree = ast.parse(open(path).read())
+        for cls in [n for n in ast.walk(tree) if isinstance(n, ast.ClassDef)]:
+            for fn in [n for n in cls.body if isinstance(n, ast.FunctionDef) and n.name == "copy"]:
+                t0 = time.time()
+                oname = f"C12/copy-is-deep/{rel}:{cls.name}.copy"
+                body = [s for s in fn.body if not (isinstance(s, ast.Expr) and isinstance(s.value, ast.Constant))]
+                bad = []
+                if len(body) == 1 and isinstance(body[0], ast.Return) and ast.unparse(body[0].value) in ("copy.deepcopy(self)", "deepcopy(self)"):
+                    pass
+                else:
+                    new = None
+                    for st_ in body:
+                        if isinstance(st_, ast.Assign) and len(st_.targets) == 1 and isinstance(st_.targets[0], ast.Name) and isinstance(st_.value, ast.Call) and new is None:
+                            new = st_.targets[0].id
+                            if _fresh_expr(st_.value):      # e.g. copy.deepcopy(self)
+                                continue
+                            for a in list(st_.value.args) + [k.value for k in st_.value.keywords]:
+                                if not _fresh_expr(a):
+                                    bad.append((st_.lineno, f"constructor argument `{ast.unparse(a)}`"))
+                        elif (isinstance(st_, ast.Assign) and len(st_.targets) == 1 and isinstance(st_.targets[0], ast.Attribute)
+                              and isinstance(st_.targets[0].value, ast.Name) and st_.targets[0].value.id == new):
+                            if not _fresh_expr(st_.value):
+                                bad.append((st_.lineno, f"`{ast.unparse(st_)}`"))
+                        elif isinstance(st_, ast.Return) and isinstance(st_.value, ast.Name) and st_.value.id == new:
+                            pass
+                        else:
+                            bad.append((st_.lineno, f"statement outside the recognised copy pattern: `{ast.unparse(st_)[:80]}`"))
+                if bad:
+                    rep = replay_copy_shares_memory()
+                    run.failed(oname, "frames", "ast-structure", what=f"{cls.name}.copy may share mutable state with the original: "
+                               + "; ".join(f"line {l}: {w}" for l, w in bad[:4]), counterexample={"sites": bad[:6]},
+                               replay={"kind": "copy-shares-memory"}, reproduced=rep.get("reproduced"), observed=rep,
+                               seconds=time.time() - t0)
+                else:
+                    run.discharged(oname, "frames", "ast-structure", time.time() - t0, function=f"{rel}:{cls.name}.copy",
+                                   sample={"lines": [fn.lineno, fn.end_lineno]})
+
+
+def replay_copy_shares_memory():
+    """state.copy() of every simulator's state: no ndarray reachable from the copy shares memory with one of the original"""
+    import numpy as np
+    import piquasso as pq
+
+    def arrays(o, seen, depth=0):
+        if id(o) in seen or depth > 4:
+            return
+        seen.add(id(o))
+        if isinstance(o, np.ndarray):
+            if np.issubdtype(o.dtype, np.inexact):      # state data; integer tables (cached basis / index arrays) are read-only lookups
+                yield o
+        elif isinstance(o, (list, tuple)):
+            for x in o:
+                yield from arrays(x, seen, depth + 1)
+        elif isinstance(o, dict):
+            for x in o.values():
+                yield from arrays(x, seen, depth + 1)
+        elif hasattr(o, "__dict__") and type(o).__module__.startswith("piquasso") and "connector" not in type(o).__name__.lower():
+            for x in vars(o).values():
+                yield from arrays(x, seen, depth + 1)
+
+    out = {"shared": []}
+    progs = {
+        "PureFockSimulator": (pq.PureFockSimulator(d=2, config=pq.Config(cutoff=3)), [pq.Vacuum(), pq.Squeezing(0.1).on_modes(0)]),
+        "FockSimulator": (pq.FockSimulator(d=2, config=pq.Config(cutoff=3)), [pq.Vacuum(), pq.Squeezing(0.1).on_modes(0)]),
+        "GaussianSimulator": (pq.GaussianSimulator(d=2), [pq.Vacuum(), pq.Squeezing(0.1).on_modes(0)]),
+        "SamplingSimulator": (pq.SamplingSimulator(d=2), [pq.StateVector([1, 0]), pq.Beamsplitter(0.3).on_modes(0, 1)]),
+    }
+    for name, (sim, ins) in progs.items():
+        try:
+            st = sim.execute_instructions(ins).state
+            cp = st.copy()
+            orig = [a for a in arrays(st, set()) if a.size]
+            for b in arrays(cp, set()):
+                if b.size and any(np.shares_memory(a, b) for a in orig):
+                    out["shared"].append({"state": type(st).__name__, "shape": list(b.shape)})
+        except Exception as e:      # noqa: BLE001
+            out.setdefault("errors", []).append(f"{name}: {e!r}"[:200])
+    out["reproduced"] = bool(out["shared"])
+    return out
+
+
 def check(run):
     t0 = time.time()
     A = Analysis(REPO, fresh_calls=FRESH_CALLS, new_calls=NEW_CALLS)
@@ -463,6 +579,7 @@ def check(run):
     run.notes.append(f"{len(steps)} simulation-step functions under the contract `modifies state only`")
     cached_obligation(run, A)
     capture_obligations(run, A)
+    copy_obligations(run)
     rng_obligations(run, A)
     bounded_dynamic(run)
     run.trust("vf/frames.py provenance analysis (over-approximating, flow-sensitive per function, summaries to fixpoint)")
@@ -495,6 +612,10 @@ def replay(path):
         out = replay_restore(file, [{"line": l} for l in lines])
         print(json.dumps(out.get("witness") or out, indent=1)[:2000])
         return 1 if out.get("reproduced") else 0
+    if r.get("kind") == "copy-shares-memory":
+        out = replay_copy_shares_memory()
+        print(out)
+        return 1 if out["reproduced"] else 0
     if r.get("kind") == "random-state":
         out = replay_random_state()
         print(out)
